@@ -3,7 +3,8 @@ option sets, shared by the real-run checks."""
 from . import gen_smt, realrun, refreader
 
 STRATEGIES = ['ddmin', 'hierarchical', 'hybrid']
-LOGICS = ['ALL', 'QF_BV', 'QF_UFLIA', 'QF_NIRA', 'QF_SLIA', 'QF_UFBVFP']
+LOGICS = ['ALL', 'QF_BV', 'QF_UFLIA', 'QF_NIRA', 'QF_SLIA', 'QF_UFBVFP',
+          'UFLIA', 'LIA', 'UF', 'AUFLIRA', 'BV']
 
 
 def small_script(r, size='small', theories=None, quoted=False):
